@@ -42,6 +42,7 @@ type scItem struct {
 	Altt  *scAlt `json:"altt"`
 	Altm  *scAlt `json:"altm"`
 	Mb    int    `json:"mb"`
+	Call  bool   `json:"call"` // end: closes a function literal that is a call argument ("end)")
 	RFile int    `json:"file"` // require: number of the required file
 	Mi    int    `json:"mi"`   // meth: 1-based position of the item; muse: position of the method item whose member is read
 	// set by a family before rendering (not part of TLC's record)
@@ -286,8 +287,16 @@ func scRenderMode(items []scItem, mode int) *scRender {
 			} else {
 				add(i, "function ", use("t", it.T, it.Tb, it.Altt), sep+"mm(", decl("p", it.P, it.Pid, "param"), ")")
 			}
+		case "cfunc":
+			add(i, "pcall(function(", decl("p", it.P, it.Pid, "param"), ")")
+		case "cchain":
+			add(i, "end):next(function(", decl("p", it.P, it.Pid, "param"), ")")
 		case "end":
-			add(i, "end")
+			if it.Call {
+				add(i, "end)")
+			} else {
+				add(i, "end")
+			}
 		case "file":
 			cur++
 			r.Files = append(r.Files, scFileName(cur))
